@@ -12,6 +12,7 @@
   (`printPinned_eq_print`), so every theorem below also holds of the pinned
   printer under the hypothesis `m.name ≠ []`.
 -/
+import AM.Model.MatcherRegex
 import AM.Lemmas.MatcherClassicRT
 import AM.Lemmas.MatcherUTF8RT
 import AM.Lemmas.MatcherTotal
@@ -278,6 +279,302 @@ theorem matcherset_spec (fm : Str → Str → Bool) (sets : List (List Matcher))
     by_cases h : matchesAll fm ms ls = true
     · simp [h]
     · simp [h, ih]
+
+/-! ### regular expressions: what "fully anchored" means
+
+`labels.NewMatcher` compiles `"^(?:" + v + ")$"` and `Matcher.Matches` asks
+`MatchString`, an unanchored search.  `Re.wrap p` is that wrapping, `Search` the
+search, `FullMatch p t` = `Den p [] t []` the meaning the property gives to
+`=~`: the pattern matches the whole value.  `matchRe` is the executable matcher
+of the correspondence engine (derivatives with start/end flags). -/
+
+theorem den_none {pre s post : Str} : ¬ Den .none pre s post := by
+  intro h; cases h
+
+theorem den_eps_iff {pre s post : Str} : Den .eps pre s post ↔ s = [] :=
+  ⟨fun h => by cases h; assumption, fun h => .eps h⟩
+
+theorem den_seq_iff {a b : Re} {pre s post : Str} :
+    Den (.seq a b) pre s post ↔
+      ∃ s1 s2, s = s1 ++ s2 ∧ Den a pre s1 (s2 ++ post) ∧ Den b (pre ++ s1) s2 post :=
+  ⟨fun h => by cases h with | seq s1 s2 hs h1 h2 => exact ⟨s1, s2, hs, h1, h2⟩,
+   fun ⟨s1, s2, hs, h1, h2⟩ => .seq s1 s2 hs h1 h2⟩
+
+theorem den_alt_iff {a b : Re} {pre s post : Str} :
+    Den (.alt a b) pre s post ↔ Den a pre s post ∨ Den b pre s post :=
+  ⟨fun h => by cases h with | altL h => exact .inl h | altR h => exact .inr h,
+   fun h => h.elim .altL .altR⟩
+
+theorem den_mkSeq (a b : Re) (pre s post : Str) :
+    Den (mkSeq a b) pre s post ↔ Den (.seq a b) pre s post := by
+  unfold mkSeq
+  split
+  · exact ⟨fun h => absurd h den_none, fun h => by
+      obtain ⟨_, _, _, h1, _⟩ := den_seq_iff.mp h; exact absurd h1 den_none⟩
+  · exact ⟨fun h => absurd h den_none, fun h => by
+      obtain ⟨_, _, _, _, h2⟩ := den_seq_iff.mp h; exact absurd h2 den_none⟩
+  · rw [den_seq_iff]
+    constructor
+    · intro h; exact ⟨[], s, by simp, .eps rfl, by simpa using h⟩
+    · rintro ⟨s1, s2, hs, h1, h2⟩
+      have := den_eps_iff.mp h1; subst this
+      simp at hs h2; subst hs; exact h2
+  · rw [den_seq_iff]
+    constructor
+    · intro h; exact ⟨s, [], by simp, by simpa using h, .eps rfl⟩
+    · rintro ⟨s1, s2, hs, h1, h2⟩
+      have := den_eps_iff.mp h2; subst this
+      simp at hs h1; subst hs; exact h1
+  · exact Iff.rfl
+
+theorem den_mkAlt (a b : Re) (pre s post : Str) :
+    Den (mkAlt a b) pre s post ↔ Den (.alt a b) pre s post := by
+  unfold mkAlt
+  split
+  · rw [den_alt_iff]; exact ⟨.inr, fun h => h.elim (fun h => absurd h den_none) id⟩
+  · rw [den_alt_iff]; exact ⟨.inl, fun h => h.elim id (fun h => absurd h den_none)⟩
+  · exact Iff.rfl
+
+/-- `nullable` decides "matches the empty piece here". -/
+theorem nullable_iff (re : Re) (pre post : Str) :
+    nullable pre.isEmpty post.isEmpty re = true ↔ Den re pre [] post := by
+  induction re with
+  | none => exact ⟨fun h => by simp [nullable] at h, fun h => absurd h den_none⟩
+  | eps => exact ⟨fun _ => .eps rfl, fun _ => rfl⟩
+  | chr n => exact ⟨fun h => by simp [nullable] at h, fun h => by cases h with | chr r hs _ => cases hs⟩
+  | any => exact ⟨fun h => by simp [nullable] at h, fun h => by cases h with | any r hs _ => cases hs⟩
+  | bol =>
+    constructor
+    · intro h; exact .bol rfl (by simpa [nullable] using h)
+    · intro h; cases h with | bol _ hp => subst hp; rfl
+  | eol =>
+    constructor
+    · intro h; exact .eol rfl (by simpa [nullable] using h)
+    · intro h; cases h with | eol _ hp => subst hp; rfl
+  | seq a b iha ihb =>
+    simp only [nullable, Bool.and_eq_true]
+    constructor
+    · rintro ⟨ha, hb⟩
+      exact .seq [] [] rfl (by simpa using iha.mp ha) (by simpa using ihb.mp hb)
+    · intro h
+      obtain ⟨s1, s2, hs, h1, h2⟩ := den_seq_iff.mp h
+      have h12 : s1 = [] ∧ s2 = [] := by simpa using hs.symm
+      obtain ⟨e1, e2⟩ := h12; subst e1; subst e2
+      simp at h1 h2
+      exact ⟨iha.mpr h1, ihb.mpr h2⟩
+  | alt a b iha ihb =>
+    simp only [nullable, Bool.or_eq_true, den_alt_iff, iha, ihb]
+  | star a _ => exact ⟨fun _ => .star0 rfl, fun _ => rfl⟩
+
+/-- The derivative: reading one rune `r` after `pre`. -/
+theorem deriv_iff (re : Re) : ∀ (pre : Str) (r : Rune) (s post : Str),
+    Den (deriv pre.isEmpty r.cp re) (pre ++ [r]) s post ↔ Den re pre (r :: s) post := by
+  induction re with
+  | none => intro pre r s post; exact ⟨fun h => absurd h den_none, fun h => absurd h den_none⟩
+  | eps =>
+    intro pre r s post
+    exact ⟨fun h => absurd h den_none, fun h => by cases h with | eps hs => cases hs⟩
+  | bol =>
+    intro pre r s post
+    exact ⟨fun h => absurd h den_none, fun h => by cases h with | bol hs _ => cases hs⟩
+  | eol =>
+    intro pre r s post
+    exact ⟨fun h => absurd h den_none, fun h => by cases h with | eol hs _ => cases hs⟩
+  | chr m =>
+    intro pre r s post
+    simp only [deriv]
+    by_cases hm : m = r.cp
+    · simp only [hm, if_true, den_eps_iff]
+      constructor
+      · intro hs; subst hs; exact .chr r rfl rfl
+      · intro h; cases h with | chr r' hs _ => simpa using (List.cons.inj hs).2
+    · simp only [hm, if_false]
+      constructor
+      · intro h; exact absurd h den_none
+      · intro h
+        cases h with
+        | chr r' hs hc =>
+          have := (List.cons.inj hs).1; subst this
+          exact absurd hc.symm hm
+  | any =>
+    intro pre r s post
+    simp only [deriv]
+    by_cases hm : r.cp = 10
+    · simp only [hm, if_true]
+      constructor
+      · intro h; exact absurd h den_none
+      · intro h
+        cases h with
+        | any r' hs hc =>
+          have := (List.cons.inj hs).1; subst this
+          exact absurd hm hc
+    · simp only [hm, if_false, den_eps_iff]
+      constructor
+      · intro hs; subst hs; exact .any r rfl hm
+      · intro h; cases h with | any r' hs _ => simpa using (List.cons.inj hs).2
+  | seq a b iha ihb =>
+    intro pre r s post
+    -- the two ways a derivative of `a·b` arises
+    have left : Den (.seq (deriv pre.isEmpty r.cp a) b) (pre ++ [r]) s post ↔
+        ∃ s1 s2, s = s1 ++ s2 ∧ Den a pre (r :: s1) (s2 ++ post) ∧ Den b (pre ++ r :: s1) s2 post := by
+      rw [den_seq_iff]
+      constructor
+      · rintro ⟨s1, s2, hs, h1, h2⟩
+        exact ⟨s1, s2, hs, (iha pre r s1 (s2 ++ post)).mp h1, by simpa using h2⟩
+      · rintro ⟨s1, s2, hs, h1, h2⟩
+        exact ⟨s1, s2, hs, (iha pre r s1 (s2 ++ post)).mpr h1, by simpa using h2⟩
+    have hnull : nullable pre.isEmpty false a = true ↔ Den a pre [] (r :: s ++ post) := by
+      have := nullable_iff a pre (r :: s ++ post)
+      simpa using this
+    have split : Den (.seq a b) pre (r :: s) post ↔
+        (∃ s1 s2, s = s1 ++ s2 ∧ Den a pre (r :: s1) (s2 ++ post) ∧ Den b (pre ++ r :: s1) s2 post) ∨
+        (Den a pre [] (r :: s ++ post) ∧ Den b pre (r :: s) post) := by
+      rw [den_seq_iff]
+      constructor
+      · rintro ⟨s1, s2, hs, h1, h2⟩
+        cases s1 with
+        | nil =>
+          simp at hs; subst hs
+          exact .inr ⟨by simpa using h1, by simpa using h2⟩
+        | cons r' s1' =>
+          simp at hs
+          obtain ⟨e1, e2⟩ := hs; subst e1
+          exact .inl ⟨s1', s2, e2, h1, h2⟩
+      · rintro (⟨s1, s2, hs, h1, h2⟩ | ⟨h1, h2⟩)
+        · exact ⟨r :: s1, s2, by simp [hs], h1, h2⟩
+        · exact ⟨[], r :: s, by simp, by simpa using h1, by simpa using h2⟩
+    simp only [deriv]
+    by_cases hn : nullable pre.isEmpty false a = true
+    · simp only [hn, if_true]
+      rw [den_mkAlt, den_alt_iff, den_mkSeq, left, split, ihb pre r s post]
+      constructor
+      · rintro (h | h)
+        · exact .inl h
+        · exact .inr ⟨hnull.mp hn, h⟩
+      · rintro (h | ⟨_, h⟩)
+        · exact .inl h
+        · exact .inr h
+    · simp only [hn, if_false, Bool.false_eq_true]
+      rw [den_mkSeq, left, split]
+      constructor
+      · intro h; exact .inl h
+      · rintro (h | ⟨h, _⟩)
+        · exact h
+        · exact absurd (hnull.mpr h) hn
+  | alt a b iha ihb =>
+    intro pre r s post
+    simp only [deriv]
+    rw [den_mkAlt, den_alt_iff, den_alt_iff, iha pre r s post, ihb pre r s post]
+  | star a iha =>
+    intro pre r s post
+    simp only [deriv]
+    rw [den_mkSeq, den_seq_iff]
+    constructor
+    · rintro ⟨s1, s2, hs, h1, h2⟩
+      exact .starS (r :: s1) s2 (by simp [hs]) (by simp)
+        ((iha pre r s1 (s2 ++ post)).mp h1) (by simpa using h2)
+    · intro h
+      cases h with
+      | star0 hs => cases hs
+      | starS s1 s2 hs hne h1 h2 =>
+        cases s1 with
+        | nil => exact absurd rfl hne
+        | cons r' s1' =>
+          simp at hs
+          obtain ⟨e1, e2⟩ := hs; subst e1
+          exact ⟨s1', s2, e2, (iha pre r s1' (s2 ++ post)).mpr h1, by simpa using h2⟩
+
+theorem matchFrom_iff (s : Str) : ∀ (re : Re) (pre : Str),
+    matchFrom pre.isEmpty re s = true ↔ Den re pre s [] := by
+  induction s with
+  | nil => intro re pre; simpa [matchFrom] using nullable_iff re pre []
+  | cons r rest ih =>
+    intro re pre
+    have h := ih (deriv pre.isEmpty r.cp re) (pre ++ [r])
+    have he : (pre ++ [r]).isEmpty = false := by cases pre <;> rfl
+    rw [he] at h
+    simp only [matchFrom, h]
+    exact deriv_iff re pre r rest []
+
+/-- **The executable matcher decides "the pattern matches the whole text".** -/
+theorem matchRe_iff (re : Re) (t : Str) : matchRe re t = true ↔ FullMatch re t :=
+  matchFrom_iff t re []
+
+/-- **Fully anchored.**  A search (`MatchString`) for the wrapped expression
+    `^(?:p)$` succeeds exactly when `p` matches the whole text — whatever `p` is:
+    alternations at the top level, anchors of its own, `.*` at the ends. -/
+theorem wrapped_search_iff_full_match (p : Re) (t : Str) : Search p.wrap t ↔ FullMatch p t := by
+  unfold Search FullMatch Re.wrap
+  constructor
+  · rintro ⟨pre, s, post, ht, h⟩
+    obtain ⟨s1, s2, hs, hb, hrest⟩ := den_seq_iff.mp h
+    obtain ⟨t1, t2, ht', hp, he⟩ := den_seq_iff.mp hrest
+    cases hb with
+    | bol e1 e2 =>
+      cases he with
+      | eol e3 e4 =>
+        subst e1 e2 e3 e4
+        simp at ht' hs hp ht
+        subst ht' hs ht
+        exact hp
+  · intro h
+    exact ⟨[], t, [], by simp, .seq [] t (by simp) (.bol rfl rfl)
+      (.seq t [] (by simp) (by simpa using h) (.eol rfl rfl))⟩
+
+/-- A full match is in particular found by a search … -/
+theorem search_of_full_match (p : Re) (t : Str) (h : FullMatch p t) : Search p t :=
+  ⟨[], t, [], by simp, h⟩
+
+/-- … but not conversely, and a pattern that merely LOOKS wrapped is not anchored:
+    `^(?:a)|(b)$` is "starts with a" or "ends with b".  Compiled as it stands
+    (instead of `^(?:^(?:a)|(b)$)$`) it accepts `ax` and `xb`. -/
+def lookalike : Re := .alt (.seq .bol (.chr 97)) (.seq (.chr 98) .eol)
+
+theorem lookalike_is_not_anchored :
+    Search lookalike [.ch 'a', .ch 'x'] ∧ ¬ FullMatch lookalike [.ch 'a', .ch 'x'] ∧
+    Search lookalike [.ch 'x', .ch 'b'] ∧ ¬ FullMatch lookalike [.ch 'x', .ch 'b'] ∧
+    FullMatch lookalike [.ch 'a'] ∧ FullMatch lookalike [.ch 'b'] ∧
+    ¬ Search lookalike.wrap [.ch 'a', .ch 'x'] := by
+  refine ⟨⟨[], [.ch 'a'], [.ch 'x'], rfl, .altL (.seq [] [.ch 'a'] rfl (.bol rfl rfl) (.chr _ rfl rfl))⟩,
+    ?_, ⟨[.ch 'x'], [.ch 'b'], [], rfl, .altR (.seq [.ch 'b'] [] rfl (.chr _ rfl rfl) (.eol rfl rfl))⟩,
+    ?_, ?_, ?_, ?_⟩
+  · rw [← matchRe_iff]; decide
+  · rw [← matchRe_iff]; decide
+  · rw [← matchRe_iff]; decide
+  · rw [← matchRe_iff]; decide
+  · rw [wrapped_search_iff_full_match, ← matchRe_iff]; decide
+
+/-- A plain substring is found by a search and is not a full match: `b` in `abc`;
+    `.` does not match a line feed, so `a.*` does not fully match `a\nb` although
+    it is found in it. -/
+theorem search_is_weaker_than_full_match :
+    Search (.chr 98) [.ch 'a', .ch 'b', .ch 'c'] ∧ ¬ FullMatch (.chr 98) [.ch 'a', .ch 'b', .ch 'c'] ∧
+    Search (.seq (.chr 97) (.star .any)) [.ch 'a', .ch '\n', .ch 'b'] ∧
+    ¬ FullMatch (.seq (.chr 97) (.star .any)) [.ch 'a', .ch '\n', .ch 'b'] := by
+  refine ⟨⟨[.ch 'a'], [.ch 'b'], [.ch 'c'], rfl, .chr _ rfl rfl⟩, ?_,
+    ⟨[], [.ch 'a'], [.ch '\n', .ch 'b'], rfl, .seq [.ch 'a'] [] rfl (.chr _ rfl rfl) (.star0 rfl)⟩, ?_⟩
+  · rw [← matchRe_iff]; decide
+  · rw [← matchRe_iff]; decide
+
+/-- `fm` of the match theorems, for patterns a parser `parse` maps into the fragment. -/
+def fmOfParse (parse : Str → Option Re) (p v : Str) : Bool :=
+  match parse p with
+  | some re => matchRe re v
+  | none => false
+
+/-- **`=~` / `!~`.**  With the executable matcher as `fm`, a regex matcher holds
+    for a value iff Go's search for the wrapped expression succeeds (`=~`) /
+    fails (`!~`), i.e. iff the pattern matches the whole value / does not. -/
+theorem regex_matcher_is_wrapped_search (parse : Str → Option Re) (m : Matcher) (re : Re) (s : Str)
+    (hp : parse m.value = some re) :
+    (m.op = .re → (m.matchesValue (fmOfParse parse) s = true ↔ Search re.wrap s)) ∧
+    (m.op = .nre → (m.matchesValue (fmOfParse parse) s = true ↔ ¬ Search re.wrap s)) := by
+  constructor
+  · intro ho
+    simp only [Matcher.matchesValue, ho, fmOfParse, hp, wrapped_search_iff_full_match, matchRe_iff]
+  · intro ho
+    simp only [Matcher.matchesValue, ho, fmOfParse, hp, wrapped_search_iff_full_match, ← matchRe_iff]
+    simp
 
 /-! ### non-vacuity -/
 
